@@ -128,6 +128,18 @@ move=> wf; case: Nat.leb_spec => [m1n|nm1]; first exact: band_det_is_det_lemma.
 by have [-> _] := @band_wide_panics_lemma A B wf nm1.
 Qed.
 
+(* the determinant vanishes exactly on the singular twins *)
+Theorem band_det_nonzero_iff_lemma (B : banded A) :
+  @wfB A B -> (bm1 B <= bn B)%coq_nat ->
+  exists dd : F, @band_det A B = Ok dd /\ (dd <> 0 <-> @trivial_kernel A B).
+Proof.
+move=> wf m1n; exists (\det (mx_of (bn B) (@dense_entry A B))).
+split; first exact: band_det_is_det_lemma.
+split; first exact: DetF_kernel.
+have [dd [E [_ K]]] := @band_det_spec_partial_lemma A FLA PL B wf m1n.
+by move: E K; rewrite band_det_is_det_lemma // => -[<-].
+Qed.
+
 (* padding slots never reach the determinant (over a field, under PivotLaws) *)
 Corollary band_det_same_slots (B B' : banded A) :
   @wfB A B -> (bm1 B <= bn B)%coq_nat -> @same_in_matrix_slots A B B' ->
@@ -172,3 +184,4 @@ Print Assumptions band_det_is_det_lemma.
 Print Assumptions band_det_same_slots.
 Print Assumptions band_det_spec_lemma.
 Print Assumptions band_det_total_lemma.
+Print Assumptions band_det_nonzero_iff_lemma.
